@@ -302,7 +302,7 @@ func cmdCheck(args []string) int {
 	confirmed := 0
 	var vioLines []string
 	var sampleViolations []interface{}
-	replayDir := filepath.Join(verifDir, "replays")
+	replayDir := filepath.Join(outDir, "replays")
 	os.MkdirAll(replayDir, 0o755)
 	knownPrinted := map[string]bool{}
 	doReplay := func(vr vrec) (string, string) {
@@ -531,9 +531,9 @@ func writeEvidence(prop, tier string, seed int, spec *PropSpec, outcomes []*entr
 		},
 		"assumptions": spec.Assumptions,
 	}
-	os.MkdirAll(filepath.Join(verifDir, "evidence"), 0o755)
+	os.MkdirAll(filepath.Join(outDir, "evidence"), 0o755)
 	data, _ := json.MarshalIndent(ev, "", " ")
-	os.WriteFile(filepath.Join(verifDir, "evidence", prop+".json"), data, 0o644)
+	os.WriteFile(filepath.Join(outDir, "evidence", prop+".json"), data, 0o644)
 }
 
 func round2(f float64) float64 { return float64(int(f*100)) / 100 }
